@@ -512,6 +512,31 @@ theorem sql_register_appends (s s' : Store) (h : Nat) (a : Attempt) (d : Option 
       refine ⟨by simpa using hany, ?_⟩
       cases hst; rfl
 
+/-- the KV store appends likewise when the id is new for that payment; with an id the payment
+    already has it overwrites the stored attempt instead (`PStep.overwrite`) — the finding. -/
+theorem kv_register_fresh_appends (s s' : Store) (h : Nat) (a : Attempt) (d : Option Payment)
+    (hst : step .kv s (.reg h a) = (s', .ok, d))
+    (hfresh : (s.attemptsOf h).any (fun x => x.id == a.id) = false) :
+    s' = s.addRow h { a with st := .inflight } := by
+  simp only [step] at hst
+  cases hp : s.payment? h with
+  | none => simp [hp, unknownOnRegister] at hst
+  | some p =>
+    simp only [hp] at hst
+    obtain ⟨i, hi, hpe⟩ := payment?_some_inv hp
+    have hpa : p.attempts = s.attemptsOf h := by rw [hpe]; rfl
+    cases hr : p.registrable <;> simp only [hr] at hst <;> try (simp at hst)
+    cases hv : verifyAttempt p { a with st := .inflight } <;> simp only [hv] at hst <;> try (simp at hst)
+    have hno : ¬ ∃ x, x ∈ p.attempts ∧ x.id = a.id := by
+      rw [hpa]
+      intro ⟨x, hx, hxid⟩
+      have : (s.attemptsOf h).any (fun x => x.id == a.id) = true := by
+        simp only [List.any_eq_true]; exact ⟨x, hx, by simp [hxid]⟩
+      simp [hfresh] at this
+    rw [if_neg hno] at hst
+    simp at hst
+    exact hst.1.symm
+
 /-! ## non-vacuity and the divergence outside the contract -/
 
 def mppAttempt (id amt : Nat) : Attempt := ⟨id, amt, 1, ⟨false, 0, some (1, 10)⟩, .inflight⟩
